@@ -146,6 +146,9 @@ class TreeSearch(StructureEstimator):
             )
             weights_computed = True
             sum_weights = weights.sum(axis=0)
+            if estimator_type == "tan":
+                # The class node can't be the root of the tree over the features.
+                sum_weights[np.where(self.data.columns == class_node)[0][0]] = -np.inf
             maxw_idx = np.argsort(sum_weights)[::-1]
             self.root_node = self.data.columns[maxw_idx[0]]
 
